@@ -19,6 +19,7 @@ def main(tier):
     F3 = P.func("WorldBuilder::World::properties", ptypes=["array<double, 3>"])
     funcs = [(F3, F3.params[2])] + [(F, F.params[3]) for F in layout.feature_properties(P)]
     layout.xdep(P, rep, funcs)
+    layout.carried(P, rep, funcs[1:])   # World::properties' own fill loop appends by design: LAYOUT.L2 decides it
     fwd.convenience_members(P, rep)
     layout.wrapper2d(P, rep, counter)
     rep.explanation = ("Effect analysis (no state outlives a query), symbolic agreement of the three width tables and of "
